@@ -572,6 +572,29 @@ for _pid in ("C13", "C17"):
     PROPERTIES[_pid]["rules"] += [("REGISTER", lambda ctx: rule_register(ctx.lib))]
     PROPERTIES[_pid]["explanation"] += " (REGISTER) add_other_identifier / add_shadowing_identifier record the name in other_identifiers on every path that returns Ok (MIR must-pass-through), so a parameter or local spelled like a prefixed unit shadows it regardless of which units were imported before."
 
+from acctab import rule_acctab  # noqa: E402
+
+for _pid in ("C15", "C13"):
+    PROPERTIES[_pid]["rules"] += [("ACCTAB", lambda ctx: rule_acctab(ctx.lib))]
+    PROPERTIES[_pid]["explanation"] += " (ACCTAB) The alias annotation `: short|long|both|none` round-trips: for each of the four AcceptsPrefix values the printer's keyword is lexed and parsed back to the same value."
+
+from constop import rule_constop  # noqa: E402
+
+for _pid in ("C02", "C01"):
+    PROPERTIES[_pid]["rules"] += [("CONSTOP", lambda ctx: rule_constop(ctx.lib))]
+    PROPERTIES[_pid]["explanation"] += " (CONSTOP) The checker's constant evaluator for exponents applies + - * / ^ with the named operation and, for the non-commutative ones, the left sub-expression's value first: the static exponent equals the one the VM computes."
+
+PROPERTIES["C08"]["rules"] += [("LISTVIEW", lambda ctx: rule_listview(ctx.lib))]
+PROPERTIES["C08"]["explanation"] += " (LISTVIEW underflow clause) A bound of a list view is decremented only under a comparison on that bound (no unsigned underflow for a view starting at index 0)."
+
+PROPERTIES["C08"]["rules"] += [("BINDORDER", lambda ctx: rule_bindorder(ctx.lib))]
+PROPERTIES["C08"]["explanation"] += " (BINDORDER fn-register clause) A function's name is entered into the compiler's table of function values before its body is compiled, so a self-reference as a value does not reach unreachable!()."
+
+from prec import rule_printfields  # noqa: E402
+
+PROPERTIES["C15"]["rules"] += [("PRINTFIELDS", lambda ctx: rule_printfields(ctx.lib))]
+PROPERTIES["C15"]["explanation"] += " (PRINTFIELDS) The printer of struct definitions uses name, type-parameter list and fields; the printer of dimension expressions writes an exponent bare only under is_integer()."
+
 NOT_APPLICABLE = {
     "C03": "numerical agreement of conversion factors over 500 units is a statement about run-time values; no structural clause is a necessary condition that is not already covered under C04/C11/C12 (static analysis cannot bound the arithmetic)",
     "C14": "a statement about the decimal rendering of every f64 under every format setting; the code delegates to pretty_dtoa/num_format and no structural clause of Number::pretty_print_with_dtoa_config can be decided without evaluating it",
